@@ -122,7 +122,11 @@ func (g *gen) perturb(f []px.KV) []px.KV {
 	r := g.r
 	var es []px.Edit
 	n := len(f)
-	switch r.Intn(5) {
+	switch r.Intn(6) {
+	case 5: // grow hard: the ancestor is much larger (and taller); the edits shrink the tree's height
+		for i := 3*n + 10; i > 0; i-- {
+			es = append(es, px.Edit{K: g.key(n + 5), V: g.val()})
+		}
 	case 0: // delete a contiguous run (whole chunks disappear)
 		if n > 0 {
 			a := r.Intn(n)
